@@ -77,7 +77,8 @@ namespace sim
       /* nm_erase_if */ 1,
       /* reserve */ 2, /* shrink */ 2, /* resize */ 2, /* resize_val */ 2,
       /* append_range */ 3, /* append_ilist */ 1, /* append_copy_sv */ 2, /* append_move_sv */ 2,
-      /* at */ 1, /* compare */ 1, /* nm_access */ 1
+      /* at */ 1, /* compare */ 1, /* nm_access */ 1, /* emplace_cref_alias */ 1,
+      /* emplace_back_cref_alias */ 1
     };
     return wts;
   }
@@ -97,7 +98,8 @@ namespace sim
           return 2;
         return 1;
       case P11:
-        return (K_INSERT_COPY_ALIAS <= k && k <= K_RESIZE_VAL_ALIAS) ? 8 : 1;
+        return ((K_INSERT_COPY_ALIAS <= k && k <= K_RESIZE_VAL_ALIAS) || k == K_EMPLACE_CREF_ALIAS
+                || k == K_EMPLACE_BACK_CREF_ALIAS) ? 8 : 1;
       case P15:
         return (k == K_CTOR_RANGE || k == K_ASSIGN_RANGE || k == K_INSERT_RANGE
                 || k == K_APPEND_RANGE || k == K_CTOR_GEN) ? 5 : 1;
@@ -232,7 +234,8 @@ namespace sim
       case K_INSERT_MOVE: case K_EMPLACE: case K_INSERT_N: case K_INSERT_RANGE: case K_RESERVE:
       case K_RESIZE: case K_RESIZE_VAL: case K_SHRINK: case K_APPEND_RANGE: case K_APPEND_ILIST:
       case K_APPEND_COPY_SV: case K_APPEND_MOVE_SV: case K_PUSH_BACK_ALIAS:
-      case K_EMPLACE_BACK_ALIAS: case K_RESIZE_VAL_ALIAS:
+      case K_EMPLACE_BACK_ALIAS: case K_RESIZE_VAL_ALIAS: case K_EMPLACE_CREF_ALIAS:
+      case K_EMPLACE_BACK_CREF_ALIAS:
         return true;
       default:
         return false;
